@@ -281,12 +281,13 @@ class PiecewiseConstantBirthDeath(Distribution):
 
         times = torch.broadcast_to(times, self.mu.shape[:-1] + times.shape[-1:])
 
-        # rho.shape==[2,1] and lambda_.shape==[2,5] : add zeros
-        if self.rho.shape[:-1] == self.lambda_.shape[:-1] and self.rho.shape[-1] < m:
+        # rho.shape[-1]==1 and lambda_.shape==[...,5] : rho applies to the last
+        # interval only (add zeros), whether or not rho carries the batch dimensions
+        if self.rho.shape[-1] < m:
             rho = torch.cat(
                 (
                     torch.zeros(
-                        self.lambda_.shape[:-1] + (m - 1,),
+                        self.rho.shape[:-1] + (m - 1,),
                         dtype=self.lambda_.dtype,
                         device=self.lambda_.device,
                     ),
@@ -294,11 +295,10 @@ class PiecewiseConstantBirthDeath(Distribution):
                 ),
                 -1,
             )
-        # default fixed rho=[0.] and lambda_.shape==[2,5]
-        elif self.rho.shape != self.lambda_.shape:
-            rho = torch.broadcast_to(self.rho, self.lambda_.shape)
         else:
             rho = self.rho
+        if rho.shape != self.lambda_.shape:
+            rho = torch.broadcast_to(rho, self.lambda_.shape)
 
         if self.relative_times and self.times is not None:
             times = times * self.origin
